@@ -158,7 +158,7 @@ def main(argv=None):
     a = ap.parse_args(argv)
     pid, tier = a.pid, a.tier
     t_start = time.time()
-    timeout_ms = 20000 if tier == "quick" else 120000
+    timeout_ms = 60000 if tier == "quick" else 180000
 
     # instrument first, then fork
     from pyvc import instrument
